@@ -288,8 +288,9 @@ def cmd_selftest(args):
         world_mod.prepare(prop, args.tier)
     total = core.run_batch(world_name, prop, args.tier, seed, n, 16, 120, 0, want_digests=True)
     env = dict(os.environ)
-    env["VERIF_HASHSEED"] = "4242"
-    env["PYTHONHASHSEED"] = "4242"
+    hs = os.environ.get("VERIF_SELFTEST_HASHSEED", "4242")
+    env["VERIF_HASHSEED"] = hs
+    env["PYTHONHASHSEED"] = hs
     p = subprocess.run([sys.executable, "-B", "-m", "simkit.cli", prop, "--selftest", "--emit-digests",
                         "--runs", str(n), "--jobs", "3", "--tier", args.tier], env=env, cwd=VERIF,
                        capture_output=True, text=True, timeout=3600)
@@ -302,7 +303,7 @@ def cmd_selftest(args):
     b = other["digests"]
     diff = sorted(k for k in set(a) | set(b) if a.get(k) != b.get(k))
     errs = total["errors"] + other["errors"]
-    print(f"selftest {prop}: {len(a)} runs x 2 (16 workers/hashseed 0 vs 3 workers/hashseed 4242, fresh interpreter); "
+    print(f"selftest {prop}: {len(a)} runs x 2 (16 workers/hashseed {os.environ.get('PYTHONHASHSEED')} vs 3 workers/hashseed {hs}, fresh interpreter); "
           f"differing digests: {len(diff)}; harness errors: {len(errs)}")
     if diff or errs:
         print("HARNESS-ERROR nondeterministic runs:", diff[:20], errs[:3])
